@@ -3,9 +3,11 @@
 
 def bounded(tier, seed, info):
     from bounded.bC10 import run
-    from bounded.bHist import run_parser_histories
+    from bounded.bHist import run_constant_histories, run_parser_histories
     from bounded.bCfg import run as run_cfg
-    return run(tier, seed, info) + run_parser_histories('C10', tier, seed) + run_cfg('C10', tier, seed)
+    # constants evaluated by an earlier parse (any grammar, same process) must not be visible to a later one
+    return (run(tier, seed, info) + run_parser_histories('C10', tier, seed) + run_constant_histories('C10', tier, seed)
+            + run_cfg('C10', tier, seed))
 
 
 def lemmas(world, reg, tier):
